@@ -22,6 +22,7 @@ import (
 	"fmt"
 	"os"
 	"sort"
+	"strings"
 
 	"github.com/zilliztech/milvus-cdc/core/log"
 	"github.com/zilliztech/milvus-cdc/core/util"
@@ -39,6 +40,16 @@ type handler struct {
 	waitTarget string
 	waiting    bool
 }
+
+// The transcription follows the manager source that checks/c16.py fingerprinted (env VERIF_C16_VARIANT):
+// the code as built, or the code with the repairs proposed for the findings of this check.
+type variant struct {
+	recheck bool // waitChannel re-checks the quota of the forwarded channel (CheckKeyNotExist) before taking it
+	skey    bool // handler.sourceKey = channelMapping.UsingSourceKey() instead of channelMappingKey == sourceInfo.PChannel
+	once    bool // waitChannel does not raise channelForwardMap a second time (:804 removed)
+}
+
+var v variant
 
 type manager struct {
 	channelMapping    *util.ChannelMapping
@@ -69,12 +80,15 @@ func (r *manager) offer(source, target string) {
 			targetPChannel: target,
 			sourceKey:      channelMappingKey == source, // :709
 		}
+		if v.skey {
+			channelHandler.sourceKey = r.channelMapping.UsingSourceKey() // repaired :709
+		}
 		diffValueForKey := r.channelMapping.CheckKeyNotExist(source, target) // :723
 		if !diffValueForKey {
 			channelHandler.waiting = true // :727 waitChannel(sourceInfo, targetInfo, channelHandler)
 			channelHandler.waitSource, channelHandler.waitTarget = source, target
 		} else {
-			r.channelForwardMap[channelMappingValue]++  // :729
+			r.channelForwardMap[channelMappingValue]++   // :729
 			r.channelMapping.AddKeyValue(source, target) // :730
 		}
 		r.channelHandlerMap[channelMappingKey] = channelHandler // :732
@@ -85,18 +99,19 @@ func (r *manager) offer(source, target string) {
 	}
 }
 
-// forwardChannel :816-823
-func (r *manager) fwdcheck(channelName string) bool {
+// forwardChannel :816-823; returns (section ran, channel was announced)
+func (r *manager) fwdcheck(channelName string) (bool, bool) {
 	if r.pendingCheck[channelName] == 0 {
-		return false
+		return false, false
 	}
 	r.pendingCheck[channelName]--
-	forwardCnt := r.channelForwardMap[channelName] // :817
+	forwardCnt := r.channelForwardMap[channelName]  // :817
 	if forwardCnt < r.channelMapping.AverageCnt() { // :819
 		r.channelForwardMap[channelName]++ // :820
 		r.pendingSend[channelName]++       // :831 blocks until a waiter receives
+		return true, true
 	}
-	return true
+	return true, false
 }
 
 // the send of :831 meets the receive of :782 in the waiter of key k; waitChannel :783-808
@@ -112,6 +127,15 @@ func (r *manager) handoff(targetChannel, key string) bool {
 	} else {
 		isRepeatedChannel = r.channelMapping.CheckKeyExist(targetChannel, channelHandler.waitTarget) // :788
 	}
+	if v.recheck { // repaired: the forwarded channel may have filled up since it was announced
+		var hasRoom bool
+		if channelHandler.sourceKey {
+			hasRoom = r.channelMapping.CheckKeyNotExist(channelHandler.waitSource, targetChannel)
+		} else {
+			hasRoom = r.channelMapping.CheckKeyNotExist(targetChannel, channelHandler.waitTarget)
+		}
+		isRepeatedChannel = isRepeatedChannel || !hasRoom
+	}
 	if isRepeatedChannel {
 		return true // :790-793 continue: the forwarded channel is consumed, the handler keeps waiting
 	}
@@ -120,9 +144,11 @@ func (r *manager) handoff(targetChannel, key string) bool {
 	} else {
 		channelHandler.sourcePChannel = targetChannel // :802
 	}
-	r.channelForwardMap[targetChannel]++                                                        // :804
+	if !v.once {
+		r.channelForwardMap[targetChannel]++ // :804
+	}
 	r.channelMapping.AddKeyValue(channelHandler.sourcePChannel, channelHandler.targetPChannel) // :805
-	channelHandler.waiting = false                                                              // :806-808 startReadChannel, return
+	channelHandler.waiting = false                                                             // :806-808 startReadChannel, return
 	return true
 }
 
@@ -135,6 +161,20 @@ func names(prefix string, n int) []string {
 }
 
 func main() {
+	for _, f := range strings.Split(os.Getenv("VERIF_C16_VARIANT"), ",") {
+		switch f {
+		case "recheck":
+			v.recheck = true
+		case "skey":
+			v.skey = true
+		case "once":
+			v.once = true
+		case "", "asbuilt":
+		default:
+			fmt.Fprintln(os.Stderr, "unknown VERIF_C16_VARIANT flag", f)
+			os.Exit(3)
+		}
+	}
 	// NewChannelMapping logs one Info line per scenario; raise the level without importing zap (go.mod stays untouched)
 	_ = log.Prop().Level.UnmarshalText([]byte("error"))
 	hx.Run(func(p *hx.Plan) []hx.Event {
@@ -168,7 +208,7 @@ func main() {
 				os.Exit(3)
 			}
 			ev := hx.Event{"op": op, "s": hx.S(st, "s"), "t": hx.S(st, "t"), "v": hx.S(st, "v"), "k": hx.S(st, "k"),
-				"hsrc": "", "enabled": true}
+				"hsrc": "", "enabled": true, "fwd": false, "inflight": 0}
 			switch op {
 			case "init":
 				s, t, nm := hx.I(st, "S"), hx.I(st, "T"), hx.S(st, "names")
@@ -182,7 +222,8 @@ func main() {
 			case "offer":
 				mgr.offer(hx.S(st, "s"), hx.S(st, "t"))
 			case "fwdcheck":
-				ev["enabled"] = mgr.fwdcheck(hx.S(st, "v"))
+				ev["inflight"] = mgr.pendingSend[hx.S(st, "v")] // announcements of v blocked in the send before this step
+				ev["enabled"], ev["fwd"] = mgr.fwdcheck(hx.S(st, "v"))
 			case "handoff":
 				if h := mgr.channelHandlerMap[hx.S(st, "k")]; h != nil {
 					ev["hsrc"] = h.waitSource
